@@ -936,6 +936,7 @@ def run_scenario(scn: list, mode: str, x: dict | None = None) -> dict:
         tracer = Tracer(x)
         tracer.install()
     active: list[int] = []
+    pos_of = {id(it): i for i, it in enumerate(_flat_ops(scn))}     # syntactic position of every op item
 
     def one_op(it):
         wins = [(j, len(journals[j].entries)) for j in active] if mode != "plain" else []
@@ -954,7 +955,7 @@ def run_scenario(scn: list, mode: str, x: dict | None = None) -> dict:
         obs["snaps"].append(common.digest(W.snapshot()))
         if tracer:
             obs["ops"].append({"forest": tracer.forest(), "out": ("ok", 0) if err is None else ("raise", err[1]),
-                               "prop": bool(it.get("prop"))})
+                               "prop": bool(it.get("prop")), "pos": pos_of[id(it)]})
         # oracle bookkeeping: the completed instrumented top-level operation has exactly one entry per active journal
         if mode == "journal" and err is None and it["op"] in ORACLE_OPS and res[1] != "skip":
             opname, who = ORACLE_OPS[it["op"]]
@@ -1295,14 +1296,16 @@ def coq_prog(scn: list, ops: list) -> str:
     """The scenario as a `prog`; executed operations carry the call forest the tracer saw, operations the
     implementation never reached carry an empty body (the model must not reach them either: the number
     of results is compared)."""
-    it_ops = iter(ops)
+    by_pos = {o["pos"]: o for o in ops}
+    counter = [0]
 
     def blk(items, k):
         # build front to back so that executed-op observations are consumed in program order
         parts = []
         for it in items:
             if "op" in it:
-                o = next(it_ops, None)
+                o = by_pos.get(counter[0])
+                counter[0] += 1
                 body = coq_body(o["forest"], o["out"]) if o else "(R (Ok 0%Z))"
                 parts.append(("op", body, bool(it.get("prop"))))
             elif "with" in it:
@@ -1399,7 +1402,7 @@ def _count_items(scn) -> int:
     return n
 
 
-def shrink(scn: list, fails) -> list:
+def shrink(scn: list, fails, budget: int = 400) -> list:
     """greedy: drop items (at any depth), unwrap blocks, while `fails` still holds"""
     cur = json.loads(json.dumps(scn))
 
@@ -1415,7 +1418,6 @@ def shrink(scn: list, fails) -> list:
                 for v in variants(it["try"]):
                     yield items[:i] + [{"try": v}] + items[i + 1:]
     changed = True
-    budget = 400
     while changed and budget > 0:
         changed = False
         for v in variants(cur):
@@ -1555,7 +1557,7 @@ def run(ck) -> None:
         ck.broken("correspondence:harness", str(e))
     for i in mism[:3]:
         scn, d = cases[i]
-        small = shrink(scn, lambda s: bool(_model_disagrees(ck, s, x)))
+        small = shrink(scn, lambda s: bool(_model_disagrees(ck, s, x)), budget=25)
         ck.broken("correspondence:run",
                   json.dumps({"scenario": small, "why": "Model.run disagrees with the implementation on journal "
                               "entries / restoration / escaping exception"}, default=str))
